@@ -50,8 +50,10 @@ STR_SWAPS = {'bin1_id': 'bin2_id', 'bin2_id': 'bin1_id', 'left': 'right', 'right
              'sum': 'mean', 'size': 'count', 'last': 'first', 'reflect': 'drop'}
 
 
-def footprint(prop):
-    """Functions evaluated by the check on the clean tree: {file: [(qualname, lineno, end_lineno)]}."""
+def footprint(prop, full_only=False):
+    """Functions evaluated by the check on the clean tree: {file: [(qualname, lineno, end_lineno)]}.
+    full_only: leave out functions the property reads only as plumbing (the calls they make into its
+    anchored code) - the rest of such a function belongs to the properties it is anchored in."""
     import importlib
     from cverif.report import Ctx
     mod = importlib.import_module(f'cverif.props.{prop}')
@@ -62,6 +64,8 @@ def footprint(prop):
     for ob in ctx.obligations:
         w = ob.get('where') or ''
         if ' ' in w:
+            if full_only and str(ob.get('rule', '')).startswith(('PLUMB.', 'SWEEP.')):
+                continue
             named.add(w.split(' ')[-1])
     for q, fa in ctx.A._cache.items():
         fi = fa.fi
@@ -361,7 +365,7 @@ def main():
     summary = {}
     t0 = time.time()
     for prop in args.props:
-        fp = footprint(prop)
+        fp = footprint(prop, full_only=True)
         jobs = []
         for path, funcs in sorted(fp.items()):
             if not path.startswith(REPO):
@@ -375,7 +379,8 @@ def main():
         det = [r for r in res if r[3] == 1]
         err = [r for r in res if r[3] == 2]
         sil = [r for r in res if r[3] == 0]
-        judged = triage.get(prop, {})
+        judged = dict(triage.get('union', {}))
+        judged.update(triage.get(prop, {}))
         untriaged = [r for r in sil if f'{r[1]}|{r[2]}' not in judged]
         summary[prop] = dict(mutants=len(res), detected=len(det), analysis_error=len(err), silent=len(sil),
                              silent_triaged_equivalent=len(sil) - len(untriaged), silent_untriaged=len(untriaged),
